@@ -23,14 +23,18 @@ CONFIG = {
             "reported by two no-op probe trackers appended in-package, /repo unmodified) with 0-3 ms jitter, or at a random time inside "
             "process start / OpenLedger (schema creation, replay, catchpoint recovery, the commit replay issues); chains of such "
             "incarnations continue on the same files until the history is complete, so disks produced by several crashes in a row and "
-            "crashes during recovery occur.  After each kill the disk is read with plain SQL (block range and bytes vs. the reference, "
+            "crashes during recovery occur.  About a third of the later incarnations also carry a fault the process SURVIVES: at the "
+            "1st/2nd tracker commit the tail probe's commitRound callback (inside the tracker transaction, after every real tracker "
+            "wrote, before UpdateAccountsRound) returns an error or panics, or a trigger installed with plain SQL in the block DB makes "
+            "a block transaction fail after one successful BlockPut; the child then is killed at the fault, 1-8 events later, or runs "
+            "on to a clean close (failed transactions must leave nothing behind).  After each kill the disk is read with plain SQL (block range and bytes vs. the reference, "
             "tracker round, catchpoint tables, files) and reopened with the real OpenLedger: every block, every account of the universe "
             "at every served round, Totals at every served round, catchpoint tables / files / label.  Non-trivial = a kill happened and "
             "at least one block was durable; distinct = distinct case lines.",
     "exhaustive": {"quick": False, "thorough": False},
     "explanation": "the theorems quantify over every interleaving of adds, flush batches, confirmations, commit scheduling, every single "
-                   "durable write (incl. those of catchpoint post-processing and of crash recovery), pruning, crashes at any of these "
-                   "points and reopens, for abstract blocks / states / evaluator and any configuration; the harness samples real crash "
+                   "durable write (incl. those of catchpoint post-processing and of crash recovery), pruning, failed (rolled-back) tracker "
+                   "and block transactions, crashes at any of these points and reopens, for abstract blocks / states / evaluator and any configuration; the harness samples real crash "
                    "points (kill after enumerated progress events + time jitter), compares the real OpenLedger with the model's "
                    "open_full on the disk found, and evaluates the proved invariants and the replay-of-the-prefix oracle on the real "
                    "observations; stats.json lists which durable-step boundaries the kills actually landed on",
